@@ -30,7 +30,8 @@ SHEET_NAMES = {
     'nonascii': ['Über', 'été'],
 }
 # classes used only where the property owns them (C09): ids that may not read back
-SHEET_NAMES_EXTRA = {
+SHEET_NAMES_EXTRA = {'default': ['Sheet'],  # the title openpyxl gives the only sheet of a new workbook
+                     
     'digit': ['1st', '2024'],
     'punct': ['Sh-1', 'a+b', 'x(y)'],
     'apostrophe': ["It's", "O'k"],
@@ -496,6 +497,8 @@ def specs(draw, tier='quick', max_books=2, arrays=True, names=True, wholecols=Tr
         for _ in range(ns):
             cls = draw(st.sampled_from(sheet_classes or ['plain', 'plain', 'space', 'mixed', 'nonascii']))
             cands = [n for n in dict(SHEET_NAMES, **SHEET_NAMES_EXTRA)[cls] if n.upper() not in {x.upper() for x in sheets}]
+            if not cands:  # a one-name class used up by the first sheet
+                cands = [n for n in SHEET_NAMES['plain'] if n.upper() not in {x.upper() for x in sheets}]
             sheets.append(draw(st.sampled_from(cands)))
         books.append({'name': bname % b, 'sheets': sheets})
     locs = [(b, s) for b in range(nb) for s in range(len(books[b]['sheets']))]
